@@ -878,6 +878,33 @@ def concatenate(arrs, axis=0):
     return Arr(shape, el, dt, geo)
 
 
+def trace(a, offset=0, axis1=0, axis2=1, dtype=None, out=None):
+    """numpy.trace: sum along the diagonal of the (axis1, axis2) planes."""
+    a = as_arr(a)
+    if a.ndim < 2:
+        raise AbstractError("trace needs at least 2 dimensions")
+    axis1 = _as_int(axis1) % a.ndim if -a.ndim <= _as_int(axis1) < a.ndim else None
+    axis2 = _as_int(axis2) % a.ndim if -a.ndim <= _as_int(axis2) < a.ndim else None
+    if axis1 is None or axis2 is None:
+        raise AbstractError("trace: axis out of range for an array of dimension %d" % a.ndim)
+    if axis1 == axis2:
+        raise AbstractError("trace: axis1 and axis2 cannot be the same")
+    offset = _as_int(offset)
+    m = moveaxis(a, (axis1, axis2), (-2, -1))
+    n1, n2 = m.shape[-2], m.shape[-1]
+    terms = []
+    for i in range(n1):
+        j = i + offset
+        if 0 <= j < n2:
+            terms.append(m[(Ellipsis, i, j)])
+    if not terms:
+        return zeros(m.shape[:-2])
+    acc = terms[0]
+    for t in terms[1:]:
+        acc = acc + t
+    return acc
+
+
 def stack(arrs, axis=0):
     arrs = [as_arr(x) for x in arrs]
     if not arrs:
